@@ -266,7 +266,7 @@ def gen_cases(rec, rng, tier):
     for _ in range(1000 if thorough else 80):
         n = rng.randint(1, 8)
         k = rng.randint(1, 3)
-        R = fag.maybe_digits(rng, fag.random_dfa(rng, n, k, names=rng.choice([None, fag.random_names(rng, n)])))
+        R = fag.maybe_digits(rng, fag.random_dfa(rng, n, k, names=rng.choice([None, fag.random_names(rng, n, exotic=True)])))
         yield {'kind': 'dfa', 'cls': 'random_dfa', 'ref': R, 'n': {1: 10, 2: 7 if thorough else 6, 3: 5}[k]}
 
 
